@@ -19,7 +19,8 @@ RULE = ("(i) twin dimension-wise DensityEstimation runs on the same data that di
         "threshold vs the reference interpolant. distinct = digest(driver, data digest, grids); non-trivial = twin run with >=3 "
         "evaluations or a hand-over sequence with a grid of >=200 points")
 RULE += (" (v) the right-hand side of uniform grids just below / above the threshold (incl. data on grid lines and grid points) vs the mean-of-hats reference.")
-REQUIRED = ["rhs_size_paths", "twin_scheme", "twin_surplus_keys", "twin_surpluses", "twin_interpolation", "handover_b_vs_reference",
+RULE += (" At every evaluation of the twin runs combi(x) is also compared with the hat expansion of the stored surpluses on the current 1-D point sets (absolute reference: caches shared by both twins cannot hide).")
+REQUIRED = ["rhs_size_paths", "interpolation_vs_reference", "twin_scheme", "twin_surplus_keys", "twin_surpluses", "twin_interpolation", "handover_b_vs_reference",
             "handover_surpluses_vs_twin", "handover_reused_entries", "R_cache_audit", "interpolation_size_paths"]
 MIN_NONTRIVIAL = {"quick": 40, "thorough": 600}
 CHUNK = {"quick": 3, "thorough": 20}
@@ -50,7 +51,21 @@ class Rec(hooks.Observer):
         sur = {k: np.array(v, dtype=float, copy=True) for k, v in op.surpluses.items() if k in dict(scheme)}
         with contextlib.redirect_stdout(io.StringIO()):
             vals = np.asarray(c(self.P), dtype=float).reshape(len(self.P))
-        self.evals_log.append({"scheme": scheme, "surpluses": sur, "interp": vals, "sizes": sorted(len(v) for v in sur.values())})
+        # absolute reference for the interpolated density: hat expansion of the stored surpluses on the CURRENT 1-D point sets
+        ref = np.zeros(len(self.P))
+        ok_ref = True
+        for lv, coef in scheme:
+            if lv not in sur:
+                ok_ref = False
+                break
+            coords, _, _ = c.get_point_coord_for_each_dim(list(lv))
+            xs = [[float(x) for x in cd] for cd in coords]
+            if int(np.prod([len(x) - 2 for x in xs])) != len(sur[lv]):
+                ok_ref = False
+                break
+            ref += coef * demodel.interpolate(xs, sur[lv], self.P)
+        self.evals_log.append({"scheme": scheme, "surpluses": sur, "interp": vals, "sizes": sorted(len(v) for v in sur.values()),
+                               "reference": ref if ok_ref else None})
 
     def before_refine(self, c):
         super().before_refine(c)
@@ -121,6 +136,11 @@ def run_twin(case, res, large=False):
             else:
                 res.check("twin_surpluses", False, "C17_twin_surplus_length", "%s: surplus vector of grid %s has different length" % (where, k), cfg)
         sc = max(1.0, float(np.max(np.abs(e0["interp"])))) * sum(abs(cf) for _, cf in e0["scheme"])
+        for tag, e in (("off", e0), ("on", e1)):
+            if e.get("reference") is not None:
+                res.close("interpolation_vs_reference", e["interp"], e["reference"], 1e-9 * sc,
+                          "C17_interpolation_differs_from_hat_expansion" + (":grid_ge_200" if max(e["sizes"]) >= 200 else ""),
+                          "%s (reuse %s): combi(x) differs from the hat expansion of the stored surpluses on the current grids" % (where, tag), cfg)
         res.close("twin_interpolation", e1["interp"], e0["interp"], 1e-9 * sc, "C17_twin_interpolation_differs" + (":grid_ge_200" if max(e0["sizes"]) >= 200 else ""),
                   "%s: combi(x) with reuse on differs from reuse off" % where, cfg)
     # audit of the matrix-entry cache
